@@ -344,6 +344,7 @@ class Interp:
         self.grouped = False
         self.loop_depth = 0
         self.renames: dict[str, str] = {}
+        self._new_funcs: set[str] = prg.new_functions()
         for local, dotted in func.module.imports.items():
             orig = dotted.rsplit(".", 1)[-1]
             if orig != local and "." in dotted:
@@ -382,7 +383,67 @@ class Interp:
         return False
 
     def expand(self, node: ast.expr, st: State) -> ast.expr:
-        return _sort_ops(_simplify_update(_Expander(st.alias, self.renames).visit(copy.deepcopy(node))))
+        out = _Expander(st.alias, self.renames).visit(copy.deepcopy(node))
+        if self._new_funcs:
+            out = self._inline_expression_functions(out, 0)
+        return _sort_ops(_simplify_update(out))
+
+    def _inline_expression_functions(self, node: ast.expr, depth: int) -> ast.expr:
+        """a call of a helper that is not part of the reference tree and consists of `return <expr>` (after local
+        definitions) is replaced by that expression: extracting a condition or a constructor expression into a helper
+        does not change what is decided"""
+        interp = self
+
+        class Inl(ast.NodeTransformer):
+            def visit_Call(self, call: ast.Call) -> ast.AST:
+                self.generic_visit(call)
+                if depth >= 3 or any(isinstance(a, ast.Starred) for a in call.args) or any(kw.arg is None for kw in call.keywords):
+                    return call
+                res = interp.prg.resolve_callee(interp.func, call.func)
+                if res not in interp._new_funcs:
+                    return call
+                target = interp.prg.funcs.get(res)  # type: ignore[arg-type]
+                if target is None or isinstance(target.node, ast.Lambda):
+                    return call
+                body = [s for s in target.node.body if not (isinstance(s, ast.Expr) and isinstance(s.value, ast.Constant))]  # type: ignore[attr-defined]
+                if not body or not isinstance(body[-1], ast.Return) or body[-1].value is None:
+                    return call
+                local: dict[str, ast.expr] = {}
+                for s in body[:-1]:
+                    if isinstance(s, ast.Assign) and len(s.targets) == 1 and isinstance(s.targets[0], ast.Name):
+                        local[s.targets[0].id] = s.value
+                    elif isinstance(s, ast.AnnAssign) and isinstance(s.target, ast.Name) and s.value is not None:
+                        local[s.target.id] = s.value
+                    else:
+                        return call
+                a = target.node.args  # type: ignore[attr-defined]
+                if a.vararg or a.kwarg:
+                    return call
+                params = [x.arg for x in a.posonlyargs + a.args]
+                bind: dict[str, ast.expr] = {}
+                decos = [unparse(d) for d in target.node.decorator_list]  # type: ignore[attr-defined]
+                if params and params[0] in ("self", "cls") and "staticmethod" not in decos and isinstance(call.func, ast.Attribute):
+                    bind[params[0]] = call.func.value
+                    params = params[1:]
+                if len(call.args) > len(params):
+                    return call
+                for name, arg in zip(params, call.args):
+                    bind[name] = arg
+                for kw in call.keywords:
+                    bind[kw.arg] = kw.value  # type: ignore[index]
+                defaults = dict(zip(reversed([x.arg for x in a.posonlyargs + a.args]), reversed(a.defaults)))
+                for name in params:
+                    if name not in bind:
+                        if name not in defaults:
+                            return call
+                        bind[name] = defaults[name]
+                env = dict(bind)
+                for name, val in local.items():
+                    env[name] = _Expander(env, {}).visit(copy.deepcopy(val))
+                out = _Expander(env, {}).visit(copy.deepcopy(body[-1].value))
+                return interp._inline_expression_functions(out, depth + 1)
+
+        return Inl().visit(node)  # type: ignore[no-any-return]
 
     def text(self, node: ast.expr, st: State) -> str:
         return ast.unparse(self.expand(node, st))
@@ -1060,8 +1121,8 @@ class Interp:
         out = []
         for s in states:
             exp = self.expand(node, s)
-            if isinstance(node, ast.Name) and (isinstance(exp, (ast.BoolOp, ast.IfExp)) or (isinstance(exp, ast.UnaryOp) and isinstance(exp.op, ast.Not)) or (isinstance(exp, ast.Compare) and len(exp.ops) > 1)):
-                # a temporary that holds a compound condition: evaluate the condition itself (already expanded)
+            if isinstance(node, (ast.Name, ast.Call)) and (isinstance(exp, (ast.BoolOp, ast.IfExp)) or (isinstance(exp, ast.UnaryOp) and isinstance(exp.op, ast.Not)) or (isinstance(exp, ast.Compare) and len(exp.ops) > 1)):
+                # a temporary (or an inlined helper) that holds a compound condition: evaluate the condition itself (already expanded)
                 out.extend(self.eval_cond(exp, s, False))
                 continue
             truth = self.eval_atom(exp, s)
